@@ -583,33 +583,192 @@ Qed.
 
 (* ================= errors that already have a library kind ================= *)
 
-Definition keeps (conv : Z) (e : berr) (k : nat) : bool :=
-  match res_kinds (conv_by conv e) with Some [k'] => Nat.eqb k k' | _ => false end.
+(* every predicate except CorrespondTo looks at the structure of an error only: erase all texts *)
+Fixpoint erase (e : berr) : berr :=
+  match e with
+  | BOpaque _ => BOpaque []
+  | BPath tm _ x => BPath tm [] (erase x)
+  | BWrap _ x => BWrap [] (erase x)
+  | BJoin a b => BJoin (erase a) (erase b)
+  | _ => e
+  end.
 
-(* for every converter and every kind it is expected to leave alone: the bare sentinel and library errors built on
-   it (one or two wrappers) keep exactly that kind WHATEVER their texts m, m' are (m, m' stay symbolic: the
-   computation never looks at them, i.e. a pass-through rule fires before any text rule) *)
-Lemma kind_preserved_l m m' :
-  forallb (fun conv => forallb (fun k =>
-     keeps conv (BK k) k && keeps conv (BWrap m (BK k)) k && keeps conv (BWrap m' (BWrap m (BK k))) k)
-     (expected_pass conv)) [0; 1; 2; 3] = true.
-Proof. vm_compute. reflexivity. Qed.
+Lemma b_same_erase_l e t : b_same (erase e) t = b_same e t.
+Proof. destruct e; reflexivity. Qed.
+Lemma b_same_erase_r x e : b_same x (erase e) = b_same x e.
+Proof. destruct x, e; reflexivity. Qed.
+Lemma errno_is_erase n e : errno_is n (erase e) = errno_is n e.
+Proof. destruct e; reflexivity. Qed.
 
-Lemma keeps_eq conv e k : keeps conv e k = true -> res_kinds (conv_by conv e) = Some [k].
+Lemma b_is_erase_l e t : b_is (erase e) t = b_is e t.
 Proof.
-  unfold keeps. destruct (res_kinds (conv_by conv e)) as [[|k' [|? ?]]|]; try discriminate.
-  intro H. apply Nat.eqb_eq in H. subst. reflexivity.
+  induction e as [k| | |n|i|m|tm p e IH|m e IH|a IHa b IHb]; simpl; auto.
+  rewrite IHa, IHb. reflexivity.
 Qed.
+
+Lemma b_is_erase_r x : forall e, b_is x (erase e) = b_is x e.
+Proof.
+  induction x as [k| | |n|i|m|tm p x IH|m x IH|a IHa b IHb]; intro e; cbn [b_is];
+    rewrite ?b_same_erase_r, ?errno_is_erase, ?IH, ?IHa, ?IHb; auto.
+  destruct (f_kind (finfo_of i)); rewrite ?b_same_erase_r; reflexivity.
+Qed.
+
+Lemma b_any_erase e x : b_any (erase e) x = b_any e x.
+Proof. unfold b_any. rewrite b_is_erase_l, b_is_erase_r. reflexivity. Qed.
+
+Lemma timeout_iface_erase e : timeout_iface (erase e) = timeout_iface e.
+Proof. induction e; simpl; auto. rewrite IHe. reflexivity. Qed.
+
+Lemma any_timeout_erase e : any_timeout (erase e) = any_timeout e.
+Proof.
+  induction e as [k| | |n|i|m|tm p e IH|m e IH|a IHa b IHb]; simpl; rewrite ?IH, ?IHa, ?IHb, ?timeout_iface_erase; auto.
+Qed.
+
+Lemma os_uis_erase e t : os_uis (erase e) t = os_uis e t.
+Proof.
+  unfold os_uis. destruct e as [k| | |n|i|m|tm p e|m e|a b]; simpl; auto.
+  rewrite b_same_erase_l. destruct e; reflexivity.
+Qed.
+
+Lemma os_is_timeout_erase e : os_is_timeout (erase e) = os_is_timeout e.
+Proof. unfold os_is_timeout. destruct e; simpl; auto. apply timeout_iface_erase. Qed.
+
+Lemma helper_erase h e : helper_eval h (erase e) = helper_eval h e.
+Proof.
+  unfold helper_eval.
+  repeat match goal with |- context [String.eqb h ?b] => destruct (String.eqb h b) end;
+    auto using os_is_timeout_erase, os_uis_erase, any_timeout_erase.
+Qed.
+
+Definition is_text (a : catom) : bool := match a with PText _ => true | _ => false end.
+
+Lemma eval_atom_erase e a : is_text a = false -> eval_atom (erase e) a = eval_atom e a.
+Proof.
+  destruct a; simpl; intro H; try discriminate; auto using helper_erase.
+  unfold b_anyl. apply existsb_ext_in. intros; apply b_any_erase.
+Qed.
+
+Definition fires_nontext (e : berr) (cc : ccase) : bool :=
+  existsb (eval_atom e) (filter (fun a => negb (is_text a)) (fst cc)).
+
+(* which case fires, as far as that can be told without reading any text: [Some None] = no case fires,
+   [Some (Some r)] = a case with result r fires on its non-text atoms, [None] = it depends on the text *)
+Fixpoint run_nt (cs : list ccase) (e : berr) : option (option cres) :=
+  match cs with
+  | [] => Some None
+  | cc :: rest =>
+      if fires_nontext e cc then Some (Some (snd cc))
+      else if existsb is_text (fst cc) then None
+      else run_nt rest e
+  end.
+
+Lemma fires_nontext_erase e cc : fires_nontext (erase e) cc = fires_nontext e cc.
+Proof.
+  unfold fires_nontext. apply existsb_ext_in. intros a I. apply filter_In in I. destruct I as [_ N].
+  apply eval_atom_erase. apply negb_true_iff in N. exact N.
+Qed.
+
+Lemma fires_of_nontext e cc : fires_nontext e cc = true -> fires e cc = true.
+Proof.
+  unfold fires, fires_nontext. intro H. apply existsb_exists in H. destruct H as (a & I & E).
+  apply filter_In in I. apply existsb_exists. exists a. tauto.
+Qed.
+
+Lemma fires_no_text e cc : existsb is_text (fst cc) = false -> fires e cc = fires_nontext e cc.
+Proof.
+  unfold fires, fires_nontext. induction (fst cc) as [|a l IH]; simpl; auto. intro H.
+  apply orb_false_iff in H. destruct H as [H1 H2]. rewrite H1. simpl. rewrite IH; auto.
+Qed.
+
+Lemma run_nt_sound cs e o : run_nt cs (erase e) = Some o ->
+  run_cases cs e = match o with None => CErr e | Some r => apply_res r e end.
+Proof.
+  induction cs as [|cc rest IH]; simpl; intro H.
+  - inversion H. reflexivity.
+  - rewrite fires_nontext_erase in H. destruct (fires_nontext e cc) eqn:F.
+    + inversion H. rewrite (fires_of_nontext _ _ F). reflexivity.
+    + destruct (existsb is_text (fst cc)) eqn:T; [discriminate|].
+      rewrite (fires_no_text e cc T), F. auto.
+Qed.
+
+(* the switch returns its argument unchanged, and that can be told from the structure alone *)
+Definition stage_pass (cs : list ccase) (e0 : berr) : bool :=
+  match run_nt cs e0 with Some None => true | Some (Some RSame) => true | _ => false end.
+
+Lemma stage_pass_sound cs e : stage_pass cs (erase e) = true -> run_cases cs e = CErr e.
+Proof.
+  unfold stage_pass. destruct (run_nt cs (erase e)) as [[r|]|] eqn:R; try discriminate.
+  - destruct r; try discriminate. intros _. rewrite (run_nt_sound _ _ _ R). reflexivity.
+  - intros _. rewrite (run_nt_sound _ _ _ R). reflexivity.
+Qed.
+
+Definition step_pass (name : string) (e0 : berr) : bool :=
+  if String.eqb name "commonerrors.ConvertContextError" then negb (b_any e0 BCanceled) && negb (b_any e0 BDeadline)
+  else if String.eqb name "platform.ConvertError" then stage_pass platform_cases e0
+  else false.
+
+Lemma step_pass_sound n e : step_pass n (erase e) = true -> pre_step n e = CErr e.
+Proof.
+  unfold step_pass, pre_step. destruct (String.eqb n "commonerrors.ConvertContextError").
+  - rewrite !b_any_erase. intro H. apply andb_true_iff in H. destruct H as [H1 H2].
+    apply negb_true_iff in H1. apply negb_true_iff in H2. unfold b_convert_ctx. rewrite H1, H2. reflexivity.
+  - destruct (String.eqb n "platform.ConvertError"); [|discriminate]. apply stage_pass_sound.
+Qed.
+
+Definition conv_pass (pre : list string) (cs : list ccase) (e0 : berr) : bool :=
+  forallb (fun n => step_pass n e0) pre && stage_pass cs e0.
+
+Lemma conv_pass_sound pre cs e : conv_pass pre cs (erase e) = true -> run_conv pre cs e = CErr e.
+Proof.
+  unfold conv_pass, run_conv, run_pre. intro H. apply andb_true_iff in H. destruct H as [H1 H2].
+  assert (P : fold_left (fun r name => then_cases r (pre_step name)) pre (CErr e) = CErr e).
+  { induction pre as [|n pre IH]; simpl; auto. simpl in H1. apply andb_true_iff in H1. destruct H1 as [A B].
+    rewrite (step_pass_sound n e A). auto. }
+  rewrite P. simpl. apply stage_pass_sound; auto.
+Qed.
+
+Definition conv_table (conv : Z) : list string * list ccase :=
+  if conv =? 0 then (fs_pre, fs_cases) else if conv =? 1 then (io_pre, io_cases)
+  else if conv =? 2 then (proc_pre, proc_cases) else (platform_pre, platform_cases).
+
+Lemma conv_by_table conv e : In conv [0; 1; 2; 3] -> platform_pre = [] ->
+  conv_by conv e = run_conv (fst (conv_table conv)) (snd (conv_table conv)) e.
+Proof.
+  intros [<-|[<-|[<-|[<-|[]]]]] P; reflexivity.
+Qed.
+
+Lemma platform_pre_nil : platform_pre = [].
+Proof. reflexivity. Qed.
+
+Definition kinds_eqb (e : berr) (k : nat) : bool := nats_eq (b_kinds e) [k].
+
+Lemma b_kinds_erase e : b_kinds (erase e) = b_kinds e.
+Proof. unfold b_kinds. apply filter_ext. intro k. apply b_is_erase_l. Qed.
+
+(* the certificate, computed on CLOSED terms (texts erased): for every converter and every kind it is expected to leave
+   alone, the sentinel and library errors of one or two wrappers pass every pre-step and the switch unchanged *)
+Definition pass_cert : bool :=
+  forallb (fun conv => forallb (fun k =>
+     forallb (fun e0 => conv_pass (fst (conv_table conv)) (snd (conv_table conv)) e0 && kinds_eqb e0 k)
+             [BK k; BWrap [] (BK k); BWrap [] (BWrap [] (BK k))])
+     (expected_pass conv)) [0; 1; 2; 3].
+
+Lemma pass_cert_ok : pass_cert = true.
+Proof. vm_compute. reflexivity. Qed.
 
 Lemma kind_preserved_for_library_errors_l conv k m m' : In conv [0; 1; 2; 3] -> In k (expected_pass conv) ->
   res_kinds (conv_by conv (BK k)) = Some [k] /\
   res_kinds (conv_by conv (BWrap m (BK k))) = Some [k] /\
   res_kinds (conv_by conv (BWrap m' (BWrap m (BK k)))) = Some [k].
 Proof.
-  intros Ic Ik. pose proof (kind_preserved_l m m') as H. rewrite forallb_forall in H. specialize (H conv Ic).
-  rewrite forallb_forall in H. specialize (H k Ik).
-  apply andb_true_iff in H. destruct H as [H H3]. apply andb_true_iff in H. destruct H as [H1 H2].
-  repeat split; apply keeps_eq; auto.
+  intros Ic Ik. pose proof pass_cert_ok as H. unfold pass_cert in H. rewrite forallb_forall in H. specialize (H conv Ic).
+  rewrite forallb_forall in H. specialize (H k Ik). rewrite forallb_forall in H.
+  assert (G : forall e, In (erase e) [BK k; BWrap [] (BK k); BWrap [] (BWrap [] (BK k))] ->
+              res_kinds (conv_by conv e) = Some [k]).
+  { intros e I. specialize (H _ I). apply andb_true_iff in H. destruct H as [H1 H2].
+    rewrite (conv_by_table conv e Ic platform_pre_nil), (conv_pass_sound _ _ e H1). simpl. f_equal.
+    rewrite <- b_kinds_erase. apply nats_eq_eq. exact H2. }
+  repeat split; apply G; simpl; auto.
 Qed.
 
 (* without the restriction to the expected kinds the statement is false of the code as it is: platform.ConvertError
